@@ -11,29 +11,29 @@ import (
 // executes.  Context switches happen only at synchronisation intrinsics (schedule decisions).
 
 type thread struct {
-	id     int
-	resume chan bool
+	id      int
+	resume  chan bool
 	started bool
-	done   bool
-	wait   func() bool // nil => runnable
-	hold   map[string]bool
+	done    bool
+	wait    func() bool // nil => runnable
+	hold    map[string]bool
 }
 
 type lockState struct {
-	writer  int // thread id, -1 none
-	readers map[int]int
+	writer     int // thread id, -1 none
+	readers    map[int]int
 	relW, relR vc
 }
 
 type sched struct {
-	threads []*thread
-	cur     *thread
-	yield   chan struct{}
-	locks   map[string]*lockState
-	perr    interface{}
+	threads  []*thread
+	cur      *thread
+	yield    chan struct{}
+	locks    map[string]*lockState
+	perr     interface{}
 	switches int
-	vcs map[int]vc
-	hist map[string]*cellHist
+	vcs      map[int]vc
+	hist     map[string]*cellHist
 }
 
 func lockKey(p *PtrV) string {
@@ -178,6 +178,30 @@ func (e *Engine) registerThreads() {
 			}
 		}
 		s.cur = nil
+		return nil
+	}
+	// sync.Pool: Get hands back the most recently Put object (with whatever it still contains), else New()
+	in["(*sync.Pool).Get"] = func(r *Run, fr *Frame, cc *ssa.CallCommon, a []Value) Value {
+		p := a[0].(*PtrV)
+		k := fmt.Sprintf("pool:%d", p.obj.id)
+		if l, _ := r.ghost[k].([]Value); len(l) > 0 {
+			v := l[len(l)-1]
+			r.ghost[k] = l[:len(l)-1]
+			return v
+		}
+		pt := r.eng.prog.ImportedPackage("sync").Type("Pool").Type()
+		sv := r.load(p, lbl("sync.Pool")).(StructV)
+		nf, _ := r.force(r.structField(pt, sv, "New")).(*FuncV)
+		if nf == nil || nf.fn == nil {
+			return &IfaceV{}
+		}
+		return r.callFn(fr, nf.fn, append([]Value{}, nf.env...), lbl("sync.Pool.New"))
+	}
+	in["(*sync.Pool).Put"] = func(r *Run, fr *Frame, cc *ssa.CallCommon, a []Value) Value {
+		p := a[0].(*PtrV)
+		k := fmt.Sprintf("pool:%d", p.obj.id)
+		l, _ := r.ghost[k].([]Value)
+		r.ghost[k] = append(l, a[1])
 		return nil
 	}
 	in["(*sync.RWMutex).Lock"] = func(r *Run, fr *Frame, cc *ssa.CallCommon, a []Value) Value {
